@@ -590,3 +590,31 @@ V('c14-support-complex-swallow', 'C14', 'hl7apy/core.py',
 V('c14-datatype-position-renamed', 'C14', 'hl7apy/v2_6/datatypes.py', "('CX_2', DATATYPES['CX_2'], (0, 1), 'CMP'),\n           ('CX_3', DATATYPES['CX_3']",
   "('CX_3', DATATYPES['CX_3'], (0, 1), 'CMP'),\n           ('CX_2', DATATYPES['CX_2']", rule='C14-P')
 V('c14-lib-find-returns-none', 'C14', 'hl7apy/v2_4/__init__.py', "            pass\n    raise ChildNotFound(name)", "            pass\n    return None", rule='C14-N')
+
+# ---------------------------------------------------------------- C01 / C02
+V('c01-components-split-on-subcomponent', 'C01', 'hl7apy/parser.py', "    component_sep = encoding_chars['COMPONENT']", "    component_sep = encoding_chars['SUBCOMPONENT']", rule='C01-S')
+V('c01-segment-joins-with-repetition', 'C01', 'hl7apy/core.py', "        separator = encoding_chars.get('FIELD')\n        repetition = encoding_chars.get('REPETITION')",
+  "        separator = encoding_chars.get('REPETITION')\n        repetition = encoding_chars.get('REPETITION')", rule='C01-S')
+V('c01-group-child-classes-order', 'C01', 'hl7apy/core.py', '        self.child_classes = {"SEG": Segment, "GRP": Group}', '        self.child_classes = {"GRP": Group, "SEG": Segment}', rule='C01-S')
+V('c01-field-name-off-by-one', 'C01', 'hl7apy/parser.py', '        name = "{0}_{1}".format(name_prefix, index + 1) if name_prefix is not None else None',
+  '        name = "{0}_{1}".format(name_prefix, index) if name_prefix is not None else None', rule='C01-N')
+V('c01-msh-pop-removed', 'C01', 'hl7apy/core.py', "        if self.name == 'MSH' and len(s) > 1:\n            s.pop(1)\n", "", rule='C01-M')
+V('c01-msh2-split-on-repetition', 'C01', 'hl7apy/parser.py',
+  "            if name == 'MSH_2':\n                fields.append(parse_field(field, name, version, encoding_chars, validation_level,\n                                          reference))\n            else:\n                for rep",
+  "            if name == 'MSH_0':\n                fields.append(parse_field(field, name, version, encoding_chars, validation_level,\n                                          reference))\n            else:\n                for rep",
+  rule='C01-M')
+V('c01-field-piece-stripped', 'C01', 'hl7apy/parser.py', "                    fields.append(parse_field(rep, name, version, encoding_chars, validation_level,\n                                              reference, force_varies))",
+  "                    fields.append(parse_field(rep.strip(), name, version, encoding_chars, validation_level,\n                                              reference, force_varies))", rule='C01-V')
+V('c01-component-text-normalised', 'C01', 'hl7apy/parser.py', "    try:\n        component = Component(name, datatype, version=version, validation_level=validation_level,\n                              reference=reference)",
+  "    text = text.replace('\\t', ' ')\n    try:\n        component = Component(name, datatype, version=version, validation_level=validation_level,\n                              reference=reference)", rule='C01-V')
+V('c01-encoder-sorted', 'C01', 'hl7apy/core.py', "        children = [self.indexes.get(k, None) for k in ordered_keys]", "        children = [self.indexes.get(k, None) for k in sorted(ordered_keys)]", rule='C01-N2')
+V('c01-table-row-swapped', 'C01', 'hl7apy/v2_3/segments.py', "('AL1_2', FIELDS['AL1_2'], (0, 1), 'FIE'),\n             ('AL1_3', FIELDS['AL1_3'], (1, 1), 'FIE'),", "('AL1_3', FIELDS['AL1_3'], (1, 1), 'FIE'),\n             ('AL1_2', FIELDS['AL1_2'], (0, 1), 'FIE'),", rule='T2')
+V('c02-range-off-by-one', 'C02', 'hl7apy/core.py', "            for i in xrange(self._last_allowed_child_index + 1, self._last_child_index + 1):", "            for i in xrange(self._last_allowed_child_index + 1, self._last_child_index):", rule='C02-K3')
+V('c02-add-never-raises-bound', 'C02', 'hl7apy/core.py', "            if field_index > self._last_child_index:\n                self._last_child_index = field_index", "            if field_index > self._last_child_index + 1:\n                self._last_child_index = field_index", rule='C02-K3')
+V('c02-subcomponent-name-offset', 'C02', 'hl7apy/parser.py', '            subcomponent_name = "{0}_{1}".format(component_datatype, index + 1)', '            subcomponent_name = "{0}_{1}".format(component_datatype, index + 2)', rule='C02-K2')
+V('c02-table-field-deleted', 'C02', 'hl7apy/v2_2/segments.py', "            (('ACC_1', FIELDS['ACC_1'], (0, 1), 'FIE'),\n", "            (", rule='T2')
+V('c02-table-tag-wrong', 'C02', 'hl7apy/v2_4/segments.py', "('ACC_2', FIELDS['ACC_2'], (0, 1), 'FIE')", "('ACC_2', FIELDS['ACC_2'], (0, 1), 'CMP')", rule='T3')
+V('c02-table-wrong-struct', 'C02', 'hl7apy/v2_4/fields.py', "'ACC_2': ('sequence', DATATYPES_STRUCTS['CE'], 'CE',", "'ACC_2': ('sequence', DATATYPES_STRUCTS['CX'], 'CE',", rule='T5')
+V('c02-table-last-field-dropped', 'C02', 'hl7apy/v2_5/segments.py', "             ('ACC_11', FIELDS['ACC_11'], (0, 1), 'FIE'),)),", "             )),", rule='T7')
+V('c02-twin-enumerate-one', 'C02', 'hl7apy/parser.py', "    for index, component in enumerate(text.split(component_sep)):", "    for index, component in enumerate(text.split(component_sep), 0):", expect='clean')
+V('c02-fix-oro', 'C02', 'hl7apy/v2_1/segments.py', "    'ORO': (\n            (('ORO_1'", "    'ORO': ('sequence',\n            (('ORO_1'", expect='fixed:T1|v2_1.SEGMENTS[ORO]')
